@@ -254,6 +254,21 @@ var c07CacheConfigs = []struct {
 	{"live cache only (LRU, capacity 1)", liveness.Config{CacheDuration: "1h", CacheCapacity: 1}},
 	{"non-live cache only (LRU, capacity 1)", liveness.Config{CacheDurationNonLive: "1h", CacheCapacityNonLive: 1}},
 	{"both caches (LRU, capacity 1)", liveness.Config{CacheDuration: "1h", CacheCapacity: 1, CacheDurationNonLive: "1h", CacheCapacityNonLive: 1}},
+	// lifetime of one nanosecond: every entry has expired by the time of the next question (the model's clock gives the
+	// messages of a history one second each), so every verdict is measured again; the map cache keeps the expired entry
+	{"both caches (map), lifetime 1 ns", liveness.Config{CacheDuration: "1ns", CacheDurationNonLive: "1ns"}},
+}
+
+// c07DurField: a cache lifetime of the liveness configuration as the model line carries it
+func c07DurField(s string) string {
+	if s == "" {
+		return "-"
+	}
+	d, err := time.ParseDuration(s)
+	if err != nil {
+		return "E"
+	}
+	return strconv.FormatInt(d.Nanoseconds(), 10)
 }
 
 func (ov c07Override) present() bool {
@@ -643,7 +658,31 @@ func (w *c07World) manager(st c07Station) *RegistrationManager {
 	conf := &RegConfig{EnableIPv4: st.e4, EnableIPv6: st.e6, EnableShareOverAPI: st.share, PreshareEndpoint: c07Endpoint,
 		PhantomBlocklist: c07Blocklists[st.block], CovertBlocklistSubnets: []string{c07CovertBlocklist}}
 	if err := conf.ParseBlocklists(); err != nil {
-		w.t.Fatal(err)
+		// every station blocklist of this harness is a list of well-formed CIDRs (some with white space around them, one in
+		// IPv4-mapped spelling): a station that refuses it does not start, and none of its phantoms is ever refused. That is
+		// a failure of the property clause on the configured text (the same signature as on the generated lists of `c07b`),
+		// not a reason to stop the run: report it with a `c07bl|` replay and go on with the entries the code does accept.
+		var tx []string
+		for _, e := range c07Blocklists[st.block] {
+			tx = append(tx, "t"+hex.EncodeToString([]byte(e)))
+		}
+		w.out.Checked()
+		w.out.OracleFail("C07:blocklist-text:well-formed-list-refused", fmt.Sprintf("phantom_blocklist %q of station %s was refused: %v", c07Blocklists[st.block], st.String(), err),
+			"c07bl|"+strings.Join(tx, " ")+"|c07ab801|200148a8687f00000000000000000001")
+		var accepted []string
+		for _, e := range c07Blocklists[st.block] {
+			one := &RegConfig{PhantomBlocklist: []string{e}}
+			if one.ParseBlocklists() == nil {
+				accepted = append(accepted, e)
+			}
+		}
+		conf.PhantomBlocklist = accepted
+		if err := conf.ParseBlocklists(); err != nil {
+			conf.PhantomBlocklist = nil
+			if err := conf.ParseBlocklists(); err != nil {
+				w.t.Fatal(err)
+			}
+		}
 	}
 	rm := NewRegistrationManager(conf)
 	if rm == nil {
@@ -1679,6 +1718,18 @@ func (w *c07World) runSeq(st c07Station, msgs []c07Msg, secrets [][]byte, cache 
 	}
 	cfgLine := fmt.Sprintf("%s,%s,%s,%d %d,%s", vlib.B(st.e4), vlib.B(st.e6), vlib.B(st.share), int(pb.TransportType_Min), int(pb.TransportType_Prefix), c07BlocklistLine(st.block)) + "," + c07CovertPolicyLine()
 	model := "c07s|" + cfgLine
+	// `c07r`: the same history with the liveness tester INSIDE the model (CJ.IngestLive: C18's tester model in front of
+	// ingestReg). The model is not told what the tester said: it gets the cache configuration, a clock (one second per
+	// message - the histories take seconds, the lifetimes are an hour or a nanosecond) and the ground truth about each
+	// message's loopback phantom, and answers whether the tester is asked, whether it answers from a cache, and everything
+	// that follows from its verdict.
+	modelR, rOK := "", real
+	var implsR []string
+	if real {
+		lc := c07CacheConfigs[cache].cfg
+		modelR = fmt.Sprintf("c07r|%s,%d,%s,%d|%s", c07DurField(lc.CacheDuration), lc.CacheCapacity, c07DurField(lc.CacheDurationNonLive), lc.CacheCapacityNonLive,
+			fmt.Sprintf("%s,%s,%s,%d %d,%s", vlib.B(st.e4), vlib.B(st.e6), vlib.B(st.share), int(pb.TransportType_Min), int(pb.TransportType_Prefix), c07BlocklistLine(st.block)))
+	}
 	var impls []string
 	var hist []c07Event
 	allSelOK := true
@@ -1727,6 +1778,33 @@ func (w *c07World) runSeq(st c07Station, msgs []c07Msg, secrets [][]byte, cache 
 		}
 		wire, selOK := w.wire(rm, stj, c, secret)
 		allSelOK = allSelOK && selOK
+		wireR, askedR, truthR := "", "-", true
+		if real {
+			stn := stj
+			stn.live, stn.lerr = false, 0 // the verdict field of the c07r wire is read by nothing: the model asks its own tester
+			wireR, _ = w.wire(rm, stn, c, secret)
+			var qs []string
+			for _, e := range pass.evs {
+				if e.kind == 'P' {
+					how := "p"
+					if e.lerr == 2 {
+						how = "c" // (v, ErrCachedPhantom): answered from a cache, no probe sent
+					}
+					qs = append(qs, how+vlib.B(e.live))
+				}
+			}
+			if len(qs) > 0 {
+				askedR = strings.Join(qs, ",")
+			}
+			if fams[0].reg != nil {
+				answers, known := c07LoopbackAnswers[fams[0].reg.PhantomIp.String()]
+				if known {
+					truthR = answers
+				} else if asked {
+					rOK = false // no ground truth about this phantom: the history is not compared on the c07r line
+				}
+			}
+		}
 		if real && fams[0].reg != nil {
 			// from here on stj is what the ORACLE judges by: whether the IPv4 phantom really answers a probe
 			if answers, known := c07LoopbackAnswers[fams[0].reg.PhantomIp.String()]; known {
@@ -1756,6 +1834,16 @@ func (w *c07World) runSeq(st c07Station, msgs []c07Msg, secrets [][]byte, cache 
 			pass.state = "-,-"
 		}
 		impls = append(impls, k+";"+pass.parse+";"+pass.evsStr+";"+pass.state+";"+w.objects(rm))
+		if real {
+			modelR += fmt.Sprintf("|%d;%s;%s", int64(j+1)*1000000000, vlib.B(truthR), wireR)
+			implsR = append(implsR, askedR+";"+k+";"+pass.parse+";"+pass.evsStr+";"+pass.state)
+			w.out.Count("c07r:tester:" + strings.Map(func(r rune) rune {
+				if r >= '0' && r <= '9' {
+					return -1
+				}
+				return r
+			}, askedR))
+		}
 		if pass.parse == "panic" || strings.Contains(pass.evsStr, "panic") || fams[0].kind == "panic" || fams[1].kind == "panic" {
 			panicked = true
 		}
@@ -1770,6 +1858,14 @@ func (w *c07World) runSeq(st c07Station, msgs []c07Msg, secrets [][]byte, cache 
 	}
 	if !allSelOK {
 		w.out.Count("assumption-broken:selector-wrong-family")
+	}
+	if real {
+		if rOK {
+			w.out.Case(modelR, strings.Join(implsR, "|"), true)
+			w.out.Count("c07r:histories")
+		} else {
+			w.out.Count("c07r:history-without-ground-truth")
+		}
 	}
 	return model, strings.Join(impls, "|")
 }
